@@ -7,7 +7,18 @@ package localexec
 // Caching executors) executing scripted actions concurrently inside a synctest
 // bubble (the base clock is the bubble's virtual time).  All judgements are
 // monitors on the implementation alone; in addition the ActionResult of every
-// action whose runner ran is compared with the Lean Outputs model.
+// action whose runner ran is compared with the Lean Outputs model, and every
+// instant observed of the call (state updates accepted by a receiver that may be
+// slow, runner started/returned, Execute returned; build directories handed out
+// and closed) with the Lean model of Execute's control flow (Model/ExecFlow.lean).
+//
+// Scenario parameters beyond the actions: maximumWritableFileUploadDelay (20 ms so
+// that commands outlast it, or 10 s), the time the receiver of execution state
+// updates is busy per update (the channel is unbuffered), whether the threads
+// start their n-th actions together.  Scripts can write an output through a
+// descriptor that is closed a few ms after the command's exit (step wput), and
+// the threads can be given identical do_not_cache actions at the same time
+// ("thread:tag" on the action line: the tag is what makes commands differ).
 
 import (
 	"context"
@@ -35,9 +46,17 @@ import (
 // ---- serialisation ---------------------------------------------------------------------------
 
 func (sc *scenario) lines() []string {
-	out := []string{fmt.Sprintf("world %d %d %d %s %s", sc.threads, sc.maxSuspension/ms, sc.batchSize, b01(sc.force), b01(sc.faults))}
+	world := fmt.Sprintf("world %d %d %d %s %s", sc.threads, sc.maxSuspension/ms, sc.batchSize, b01(sc.force), b01(sc.faults))
+	if sc.uploadDelay != 0 || sc.consumerDelay != 0 || sc.barrier {
+		world += fmt.Sprintf(" %d %d %s", sc.uploadDelay/ms, sc.consumerDelay/ms, b01(sc.barrier))
+	}
+	out := []string{world}
 	for _, a := range sc.actions {
-		l := []string{"action", fmt.Sprint(a.thread), fmt.Sprint(int64(a.timeout / ms)), b01(a.doNotCache), b01(a.upDirs), b01(a.noCommand),
+		who := fmt.Sprint(a.thread)
+		if a.tag != a.thread {
+			who = fmt.Sprintf("%d:%d", a.thread, a.tag)
+		}
+		l := []string{"action", who, fmt.Sprint(int64(a.timeout / ms)), b01(a.doNotCache), b01(a.upDirs), b01(a.noCommand),
 			fmt.Sprint(a.exit), fmt.Sprint(int(a.failCode)), fmt.Sprint(a.stdoutID), fmt.Sprint(a.stderrID), hexs(a.wd)}
 		for _, p := range a.paths {
 			l = append(l, hexs(p))
@@ -67,11 +86,15 @@ func parseScenario(lines []string) (*scenario, error) {
 			}
 			sc.threads, sc.maxSuspension, sc.batchSize = atoi(ws[1]), time.Duration(atoi(ws[2]))*ms, atoi(ws[3])
 			sc.force, sc.faults = ws[4] == "1", ws[5] == "1"
+			if len(ws) >= 9 {
+				sc.uploadDelay, sc.consumerDelay, sc.barrier = time.Duration(atoi(ws[6]))*ms, time.Duration(atoi(ws[7]))*ms, ws[8] == "1"
+			}
 		case "action":
 			if len(ws) < 11 {
 				return nil, fmt.Errorf("bad action line")
 			}
-			a := &action{thread: atoi(ws[1]), timeout: time.Duration(atoi(ws[2])) * ms, doNotCache: ws[3] == "1", upDirs: ws[4] == "1",
+			who := strings.SplitN(ws[1], ":", 2)
+			a := &action{thread: atoi(who[0]), tag: atoi(who[len(who)-1]), timeout: time.Duration(atoi(ws[2])) * ms, doNotCache: ws[3] == "1", upDirs: ws[4] == "1",
 				noCommand: ws[5] == "1", exit: int32(atoi(ws[6])), failCode: codes.Code(atoi(ws[7])), stdoutID: atoi(ws[8]), stderrID: atoi(ws[9]), input: newDir()}
 			var err error
 			if a.wd, err = unhx(ws[10]); err != nil {
@@ -106,6 +129,18 @@ func parseScenario(lines []string) (*scenario, error) {
 			switch s.kind {
 			case "run":
 				s.dur = time.Duration(atoi(ws[3])) * ms
+			case "wput":
+				p, err := unhx(ws[3])
+				if err != nil || p == "" || len(ws) < 6 {
+					return nil, fmt.Errorf("bad wput step")
+				}
+				s.path = strings.Split(p, "/")
+				s.dur = time.Duration(atoi(ws[4])) * ms
+				t, rest, err := parseTree(ws[5:])
+				if err != nil || len(rest) != 0 || t.kind != 'f' {
+					return nil, fmt.Errorf("bad wput step")
+				}
+				s.n = t
 			default:
 				p, err := unhx(ws[3])
 				if err != nil || p == "" {
@@ -247,12 +282,44 @@ func genScenario(g *generator, tier string) *scenario {
 		force:         r.Chance(1, 6),
 		faults:        r.Chance(1, 8),
 	}
+	// how long UploadFile may wait for files still opened for writing: short enough for
+	// commands to outlast it, or the 10 s every earlier history used
+	if r.Chance(1, 2) {
+		sc.uploadDelay = 20 * ms
+	}
+	// a receiver of execution state updates that is busy for a while with every update
+	if r.Chance(1, 2) {
+		sc.consumerDelay = []time.Duration{5 * ms, 20 * ms, 40 * ms}[r.Intn(3)]
+	}
+	sc.barrier = r.Chance(1, 3)
 	perThread := 1 + r.Pick(3, 1)
 	for round := 0; round < perThread; round++ {
+		// identical do_not_cache actions on all threads at once (the scheduler never
+		// deduplicates those; identical cacheable actions are never in flight together)
+		twins := sc.threads > 1 && r.Chance(1, 4)
+		var first *action
 		for th := 0; th < sc.threads; th++ {
+			if twins && first != nil {
+				a := *first
+				a.thread = th
+				sc.actions = append(sc.actions, &a)
+				continue
+			}
+			if !twins && !sc.faults && round > 0 && r.Chance(1, 8) {
+				// the same action once more on the same thread: its directory name is free again
+				for i := len(sc.actions) - 1; i >= 0; i-- {
+					if sc.actions[i].thread == th {
+						a := *sc.actions[i]
+						sc.actions = append(sc.actions, &a)
+						break
+					}
+				}
+				continue
+			}
 			c := g.gen(tier)
 			a := &action{
 				thread:     th,
+				tag:        th,
 				timeout:    []time.Duration{35 * ms, 75 * ms, 105 * ms, 1005 * ms, 1005 * ms}[r.Intn(5)],
 				doNotCache: r.Chance(1, 4),
 				upDirs:     c.upDirs,
@@ -279,6 +346,18 @@ func genScenario(g *generator, tier string) *scenario {
 				// the input of t1 was c.t0 with specials; whatever c.t1 kept of them is re-created by put steps
 				var fsSteps []step
 				diff(base, target, nil, &fsSteps)
+				// some files are written through a descriptor that is closed only after the
+				// command has exited, always within the time the worker waits for such files
+				for i := range fsSteps {
+					if s := &fsSteps[i]; s.kind == "put" && s.n.kind == 'f' && r.Chance(1, 3) {
+						s.kind = "wput"
+						if sc.uploadDelay != 0 {
+							s.dur = time.Duration(r.Intn(3)) * 5 * ms
+						} else {
+							s.dur = []time.Duration{0, 5 * ms, 50 * ms, 400 * ms}[r.Intn(4)]
+						}
+					}
+				}
 				var readable [][]string
 				unchangedFiles(base, target, nil, &readable)
 				// interleave time-consuming steps
@@ -301,6 +380,10 @@ func genScenario(g *generator, tier string) *scenario {
 					}
 				}
 			}
+			if twins {
+				a.doNotCache = true
+				first = a
+			}
 			sc.actions = append(sc.actions, a)
 		}
 	}
@@ -309,15 +392,24 @@ func genScenario(g *generator, tier string) *scenario {
 
 // ---- execution ------------------------------------------------------------------------------
 
+// askedProp is the property the run is for (-prop); a monitor failure of that
+// property takes precedence over failures of the others when a history has both.
+var askedProp string
+
+// flowDrv is the driver of Model/ExecFlow.lean (control flow of Execute, directory names).
+var flowDrv *hx.Driver
+
 type outcome struct {
-	monitor  string
-	mismatch string
-	expected string
-	actual   string
-	flags    map[string]bool
-	steps    int
-	obs      []*actionObs
-	events   []event
+	mismatchProp string // property whose model part disagrees (default C10)
+	monitor      string
+	byProp       map[string]string // first monitor failure per property
+	mismatch     string
+	expected     string
+	actual       string
+	flags        map[string]bool
+	steps        int
+	obs          []*actionObs
+	events       []event
 }
 
 // execute runs the scenario in a synctest bubble and returns the observations.
@@ -332,11 +424,38 @@ func execute(t *testing.T, sc *scenario) (obs []*actionObs, w *world, crashed st
 		}
 		var wg sync.WaitGroup
 		var lock sync.Mutex
+		// barrier: the threads that still have an n-th action start it together
+		rounds := 0
+		for _, l := range byThread {
+			if len(l) > rounds {
+				rounds = len(l)
+			}
+		}
+		arrived := make([]int, rounds)
+		expected := make([]int, rounds)
+		gates := make([]chan struct{}, rounds)
+		for i := range gates {
+			gates[i] = make(chan struct{})
+			for _, l := range byThread {
+				if len(l) > i {
+					expected[i]++
+				}
+			}
+		}
 		for th := 0; th < sc.threads; th++ {
 			wg.Add(1)
 			go func(th int) {
 				defer wg.Done()
-				for _, a := range byThread[th] {
+				for round, a := range byThread[th] {
+					if sc.barrier {
+						lock.Lock()
+						arrived[round]++
+						if arrived[round] == expected[round] {
+							close(gates[round])
+						}
+						lock.Unlock()
+						<-gates[round]
+					}
 					o := &actionObs{a: a}
 					func() {
 						defer func() {
@@ -347,8 +466,37 @@ func execute(t *testing.T, sc *scenario) (obs []*actionObs, w *world, crashed st
 						req, dg := w.request(a)
 						o.digestKey = protoKey(dg)
 						threads[th].runner.a, threads[th].runner.obs = a, &o.run
-						updates := make(chan *remoteworker.CurrentState_Executing, 16)
+						threads[th].creator.cur = o
+						// execution state updates go through an unbuffered channel (as in every
+						// wrapper of cmd/bb_worker) to a receiver that is busy for consumerDelay
+						// with each update (forwarding it to the scheduler)
+						updates := make(chan *remoteworker.CurrentState_Executing)
+						consumed := make(chan struct{})
+						go func() {
+							defer close(consumed)
+							for u := range updates {
+								kind := "other"
+								switch u.ExecutionState.(type) {
+								case *remoteworker.CurrentState_Executing_FetchingInputs:
+									kind = "fetching"
+								case *remoteworker.CurrentState_Executing_Running:
+									kind = "running"
+								case *remoteworker.CurrentState_Executing_UploadingOutputs:
+									kind = "uploading"
+								}
+								o.updates = append(o.updates, updateObs{kind: kind, at: time.Since(w.t0)})
+								if sc.consumerDelay > 0 {
+									time.Sleep(sc.consumerDelay)
+								}
+							}
+						}()
+						defer func() {
+							close(updates)
+							<-consumed
+						}()
+						o.begin = time.Since(w.t0)
 						o.response = threads[th].executor.Execute(context.Background(), filePool, nil, digestFunction, req, updates)
+						o.end = time.Since(w.t0)
 						// the per-action build directory must be gone as soon as Execute has returned
 						o.goneAfter = true
 						if o.run.buildDir != "" {
@@ -369,6 +517,7 @@ func execute(t *testing.T, sc *scenario) (obs []*actionObs, w *world, crashed st
 			}(th)
 		}
 		wg.Wait()
+		w.bg.Wait()
 		synctest.Wait()
 	})
 	return
@@ -438,8 +587,15 @@ func structureEqual(a, b *node, at string) string {
 // judge applies all monitors to the observations of one scenario.
 func judge(sc *scenario, obs []*actionObs, w *world, drv *hx.Driver, out *outcome) {
 	bad := func(prop, format string, args ...any) {
-		if out.monitor == "" {
-			out.monitor = prop + ": " + fmt.Sprintf(format, args...)
+		msg := prop + ": " + fmt.Sprintf(format, args...)
+		if out.byProp == nil {
+			out.byProp = map[string]string{}
+		}
+		if out.byProp[prop] == "" {
+			out.byProp[prop] = msg
+		}
+		if out.monitor == "" || (prop == askedProp && out.monitor[:3] != askedProp) {
+			out.monitor = msg
 		}
 	}
 	for _, o := range obs {
@@ -462,6 +618,10 @@ func judge(sc *scenario, obs []*actionObs, w *world, drv *hx.Driver, out *outcom
 		conflict := valid && conflicting(a.input, ds)
 
 		// ---- C12: isolation -------------------------------------------------------
+		if o.getFailed {
+			// no directory operation, cleaner or context fails in these histories
+			bad("C12", "the action was not given a build directory of its own: GetBuildDirectory failed with %v although nothing was made to fail (do_not_cache=%v, %d thread(s))", o.getCode, a.doNotCache, sc.threads)
+		}
 		if !o.goneAfter {
 			bad("C12", "the build directory %q still exists after Execute returned", o.run.buildDir)
 		}
@@ -510,11 +670,34 @@ func judge(sc *scenario, obs []*actionObs, w *world, drv *hx.Driver, out *outcom
 				bad("C10", "input root handed to the runner: %s", v)
 			}
 		}
-		if o.run.wdSeen != a.wd || len(o.run.args) != 2 || o.run.env["ACTION"] != fmt.Sprint(a.thread) || o.run.env["PATH"] != "/bin" {
+		if o.run.wdSeen != a.wd || len(o.run.args) != 2 || o.run.env["ACTION"] != fmt.Sprint(a.tag) || o.run.env["PATH"] != "/bin" {
 			bad("C10", "the runner did not get the command's arguments/working directory/environment")
 		}
 
 		// ---- C11: timeouts --------------------------------------------------------
+		// the property text on the runner's own account: when its context ended with
+		// DEADLINE_EXCEEDED it had run (not counting stalls beyond the maximum
+		// compensation) for the whole timeout, whatever else the worker was waiting for
+		if o.run.killed {
+			wall := o.run.end - o.run.start
+			charged := o.run.unsuspended
+			if stalled := wall - o.run.unsuspended; stalled > sc.maxSuspension {
+				charged += stalled - sc.maxSuspension
+			}
+			if charged < a.timeout {
+				bad("C11", "the command was cancelled (%v) after it had run for %v (%v wall clock, maximum compensation %v) of its timeout %v; the receiver of state updates takes %v per update",
+					o.run.ctxErr, o.run.unsuspended, wall, sc.maxSuspension, a.timeout, sc.consumerDelay)
+			}
+		}
+		if sc.consumerDelay > 0 {
+			out.flags["slow-consumer"] = true
+		}
+		if o.run.lingering > 0 {
+			out.flags["lingering-writer"] = true
+			if sc.uploadDelay != 0 && o.run.end-o.run.start > sc.uploadDelay {
+				out.flags["lingering-writer-after-long-command"] = true
+			}
+		}
 		wantCompleted, wantKilled, wantU := simulate(a, sc.maxSuspension)
 		if o.run.killed != wantKilled {
 			bad("C11", "timeout %v, maximum suspension %v: the runner's context was done=%v, but the script exceeds its unsuspended budget=%v (ran unsuspended %v, %d steps)",
@@ -643,6 +826,11 @@ func judge(sc *scenario, obs []*actionObs, w *world, drv *hx.Driver, out *outcom
 				}
 			}
 		}
+
+		// ---- correspondence with the Lean model of Execute's control flow -------------
+		if flowDrv != nil && out.monitor == "" && out.mismatch == "" {
+			flowTie(sc, o, ds, final, code, out)
+		}
 	}
 
 	// ---- C12: cleaning only at idle transitions, nothing left behind ------------------
@@ -677,6 +865,9 @@ func judge(sc *scenario, obs []*actionObs, w *world, drv *hx.Driver, out *outcom
 	}
 	if w.held != 0 {
 		bad("C12", "%d build directories were never closed", w.held)
+	}
+	if flowDrv != nil && out.monitor == "" && out.mismatch == "" {
+		dirTie(w, out)
 	}
 	if w.acViol != "" {
 		bad("C09", "%s", w.acViol)
@@ -812,21 +1003,35 @@ func shrinkScenario(t *testing.T, sc *scenario, fails func(*scenario) bool) *sce
 
 func TestHarness(t *testing.T) {
 	o := hx.ParseFlags()
-	res := hx.NewResult("localexec", o, "one history = one worker (1-3 threads wired like cmd/bb_worker: shared in-memory build directory cleaned through the real IdleInvoker, Shared(Clean(Root)) build directory creators, per thread the real SuspendableClock over virtual time, BatchedStoreBlobAccess, LocalBuildExecutor inside StorageFlushing and Caching executors, fake CAS/AC) executing 1-6 scripted actions (commands from the C10 path grammar, CAS-backed input roots with read latencies that suspend the clock, runner scripts that create/remove outputs, run for a while, read inputs, write stdout/stderr, exit non-zero, fail, or outlive their timeout); non-trivial = at least one runner ran, one action was suspended while reading inputs, and either a timeout fired or two threads ran concurrently; distinct = hash of the scenario lines")
+	askedProp = o.Prop
+	res := hx.NewResult("localexec", o, "one history = one worker (1-3 threads wired like cmd/bb_worker: shared in-memory build directory cleaned through the real IdleInvoker, Shared(Clean(Root)) build directory creators, per thread the real SuspendableClock over virtual time, BatchedStoreBlobAccess, LocalBuildExecutor inside StorageFlushing and Caching executors, fake CAS/AC) executing 1-6 scripted actions (commands from the C10 path grammar, CAS-backed input roots with read latencies that suspend the clock, runner scripts that create/remove outputs, write outputs through a descriptor closed shortly after the command's exit, run for a while, read inputs, write stdout/stderr, exit non-zero, fail, or outlive their timeout; execution state updates through an unbuffered channel to a receiver busy 0-40 ms per update; writable-file upload delay 20 ms or 10 s; identical do_not_cache actions on all threads at once); every executed action is compared with Model/Outputs.lean and Model/ExecFlow.lean; non-trivial = at least one runner ran, one action was suspended while reading inputs, and either a timeout fired or two threads ran concurrently; distinct = hash of the scenario lines")
 	drv, err := hx.StartDriver("outputs")
 	if err != nil {
 		fmt.Fprintln(os.Stderr, "cannot start model driver:", err)
 		os.Exit(3)
 	}
 	defer drv.Close()
+	if flowDrv, err = hx.StartDriver("execflow"); err != nil {
+		fmt.Fprintln(os.Stderr, "cannot start model driver:", err)
+		os.Exit(3)
+	}
+	defer flowDrv.Close()
 
 	report := func(sc *scenario, out outcome) {
 		fails := func(cand *scenario) bool {
-			r := run(t, cand, drv)
-			if out.monitor != "" {
-				return r.monitor != "" && r.monitor[:3] == out.monitor[:3]
+			// twice: a candidate that only fails when two events of one virtual instant
+			// happen in a particular order is not a replay
+			for i := 0; i < 2; i++ {
+				r := run(t, cand, drv)
+				if out.monitor != "" {
+					if r.monitor == "" || r.monitor[:3] != out.monitor[:3] {
+						return false
+					}
+				} else if r.mismatch == "" || r.monitor != "" {
+					return false
+				}
 			}
-			return r.mismatch != "" && r.monitor == ""
+			return true
 		}
 		min := shrinkScenario(t, sc, fails)
 		r := run(t, min, drv)
@@ -834,6 +1039,9 @@ func TestHarness(t *testing.T) {
 			min, r = sc, out
 		}
 		prop := "C10"
+		if r.mismatchProp != "" {
+			prop = r.mismatchProp
+		}
 		f := hx.Finding{History: min.lines()}
 		if r.monitor != "" {
 			prop = r.monitor[:3]
@@ -842,11 +1050,9 @@ func TestHarness(t *testing.T) {
 			f.Kind, f.What, f.Name = "mismatch", r.mismatch, r.mismatch
 			f.Expected, f.Actual = r.expected, r.actual
 		}
-		if o.Prop != "" && (prop == "C11" || prop == "C12") {
-			// registered for C09 and C10 only: file what belongs to the other properties under the asking one
-			f.What = "(" + prop + ") " + f.What
-			prop = o.Prop
-		}
+		// a failure of another property than the one asked for keeps its own property:
+		// ./check files it as a broken correspondence of the shared harness, never as a
+		// violation of the property it was asked about
 		f.Property = prop
 		f.Sig = hx.Sig(prop, "localexec", strings.Join(min.lines(), ";"))
 		res.Report(f)
@@ -868,7 +1074,7 @@ func TestHarness(t *testing.T) {
 		if out.monitor != "" || out.mismatch != "" {
 			report(sc, out)
 		}
-		res.ModelLines = drv.Lines
+		res.ModelLines = drv.Lines + flowDrv.Lines
 		res.Write(o)
 		return
 	}
@@ -878,8 +1084,12 @@ func TestHarness(t *testing.T) {
 		cases = 4000 * o.Scale
 	}
 	g := &generator{r: hx.NewRand(o.Seed)}
-	violations := 0
-	for i := 0; i < cases && violations == 0 && len(res.Findings) < 3; i++ {
+	// The search goes on until a monitor of the asked property fails (a violation with a
+	// replay).  A disagreement with a model, or a failure of another property's monitor,
+	// is reported once (shrinking is expensive) and the search continues: it may well be
+	// the first symptom of a change for which a failing input of this property exists.
+	violations, mismatches, others := 0, 0, 0
+	for i := 0; i < cases && violations == 0; i++ {
 		sc := genScenario(g, "quick")
 		out := run(t, sc, drv)
 		res.Evaluations += out.steps
@@ -889,15 +1099,191 @@ func TestHarness(t *testing.T) {
 		}
 		res.Count(fmt.Sprintf("threads-%d", sc.threads))
 		res.History(sc.lines(), out.flags["ran"] && out.flags["suspended"] && (out.flags["timeout"] || out.flags["concurrent"]))
-		if out.monitor != "" || out.mismatch != "" {
+		switch {
+		case out.monitor != "" && (o.Prop == "" || out.monitor[:3] == o.Prop):
 			report(sc, out)
-			if out.monitor != "" {
-				violations++
+			violations++
+		case out.monitor != "":
+			if others < 2 {
+				report(sc, out)
 			}
+			others++
+		case out.mismatch != "":
+			if mismatches < 1 {
+				report(sc, out)
+			}
+			mismatches++
 		}
 	}
-	res.ModelLines = drv.Lines
+	if mismatches > 1 {
+		res.Count(fmt.Sprintf("further-histories-disagreeing-with-a-model-%d", mismatches-1))
+	}
+	res.ModelLines = drv.Lines + flowDrv.Lines
 	res.Write(o)
 }
 
 var _ = remoteexecution.Command_TREE_ONLY
+
+// ---- Model/ExecFlow.lean ------------------------------------------------------------------------
+
+// lingersUnder collects, once per file, the lingering descriptors of the regular
+// files the executor uploads: everything at or below a declared location.
+func lingersUnder(ds []decl, final *node) []int {
+	seen := map[*node]bool{}
+	var out []int
+	var walk func(n *node)
+	walk = func(n *node) {
+		if n == nil || seen[n] {
+			return
+		}
+		seen[n] = true
+		switch n.kind {
+		case 'f':
+			if n.lingerMs > 0 {
+				out = append(out, n.lingerMs)
+			}
+		case 'd':
+			for _, k := range n.names() {
+				walk(n.entries[k])
+			}
+		}
+	}
+	for _, d := range ds {
+		walk(final.walk(d.loc))
+	}
+	return out
+}
+
+// flowTie compares every instant the harness observed of one Execute call with
+// Model/ExecFlow.lean: when the three state updates were accepted, when the
+// runner was started and when it returned, whether and after how much run time
+// it was cancelled, the virtual execution duration, and when Execute returned
+// (which is when the last lingering writer the upload has to wait for is done).
+func flowTie(sc *scenario, o *actionObs, ds []decl, final *node, code codes.Code, out *outcome) {
+	a := o.a
+	uploadDelay := sc.uploadDelay
+	if uploadDelay == 0 {
+		uploadDelay = defaultUploadDelay
+	}
+	line := []string{"flow", fmt.Sprint(int64(a.timeout / ms)), fmt.Sprint(int64(sc.maxSuspension / ms)), fmt.Sprint(int64(uploadDelay / ms)), fmt.Sprint(int64(sc.consumerDelay / ms)), "0"}
+	for _, s := range a.steps {
+		switch s.kind {
+		case "run":
+			line = append(line, fmt.Sprintf("r%d", s.dur/ms))
+		case "read":
+			lat := time.Duration(0)
+			if n := a.input.walk(s.path); n != nil && n.kind == 'f' {
+				lat = inputLatency(n.content)
+			}
+			line = append(line, fmt.Sprintf("s%d", lat/ms))
+		default:
+			line = append(line, "s0")
+		}
+	}
+	var lingers []int
+	if !o.run.killed {
+		lingers = lingersUnder(ds, final)
+	}
+	complete := "-"
+	if len(lingers) > 0 {
+		complete = strings.Repeat("1", len(lingers)) // the C10 monitor found every digest correct
+	}
+	for _, l := range lingers {
+		line = append(line, fmt.Sprintf("l%d", l))
+	}
+	exp, err := flowDrv.Ask(strings.Join(line, " "))
+	if err != nil {
+		exp = "driver-error " + err.Error()
+	}
+	acc := map[string]time.Duration{"fetching": -ms, "running": -ms, "uploading": -ms}
+	for _, u := range o.updates {
+		if v, ok := acc[u.kind]; ok && v < 0 {
+			acc[u.kind] = u.at - o.begin
+		}
+	}
+	ved := -ms
+	if d := o.response.GetResult().GetExecutionMetadata().GetVirtualExecutionDuration(); d != nil {
+		ved = d.AsDuration()
+	}
+	runStart, runEnd := o.run.start-o.begin, o.run.end-o.begin
+	// model fields: acceptFetching acceptRunning budgetStart killed unsusp wall completed runEnd acceptUploading delayStart complete finish
+	// budgetStart is observed as the start of the runner together with unsusp = virtual
+	// execution duration; delayStart as the acceptance of the update that precedes it
+	e := strings.Fields(exp)
+	var expected, actual string
+	if len(e) != 12 {
+		expected, actual = exp, "a trace"
+	} else {
+		expected = fmt.Sprintf("fetching=%s running=%s start=%s killed=%s unsuspended=%s virtual=%s wall=%s completed=%s end=%s uploading=%s delay-from=%s complete=%s return=%s",
+			e[0], e[1], e[2], e[3], e[4], e[4], e[5], e[6], e[7], e[8], e[9], e[10], e[11])
+		actual = fmt.Sprintf("fetching=%d running=%d start=%d killed=%s unsuspended=%d virtual=%d wall=%d completed=%d end=%d uploading=%d delay-from=%d complete=%s return=%d",
+			acc["fetching"]/ms, acc["running"]/ms, runStart/ms, b01(o.run.killed), o.run.unsuspended/ms, ved/ms, (o.run.end-o.run.start)/ms, o.run.completed,
+			runEnd/ms, acc["uploading"]/ms, acc["uploading"]/ms, complete, (o.end-o.begin)/ms)
+	}
+	if expected != actual {
+		out.mismatch = "localexec: timeline of Execute vs Model/ExecFlow.lean (theorems C11Flow.within_budget_never_cancelled, C11Flow.budget_starts_when_running_is_accepted, C10Flow.writers_closing_within_the_delay_are_waited_for)"
+		out.expected, out.actual = expected, actual
+		out.mismatchProp = "C11"
+		if len(e) == 12 {
+			ef, af := strings.Fields(expected), strings.Fields(actual)
+			same := true
+			for i := 0; i < 9 && i < len(ef) && i < len(af); i++ {
+				same = same && ef[i] == af[i]
+			}
+			if same {
+				out.mismatchProp = "C10" // the run stage agrees: the upload stage differs
+			}
+		}
+	}
+}
+
+// dirTie replays the hand-outs and closes of build directories, in the order
+// they happened, against Dirs.get / Dirs.finish of Model/ExecFlow.lean.
+func dirTie(w *world, out *outcome) {
+	ask := func(line string) string {
+		r, err := flowDrv.Ask(line)
+		if err != nil {
+			return "driver-error " + err.Error()
+		}
+		return r
+	}
+	fail := func(line, got string) {
+		out.mismatch = "localexec: build directory names vs Model/ExecFlow.lean (theorems C12Flow.every_action_gets_a_directory_of_its_own, C12Flow.directory_name)"
+		out.expected, out.actual = got, line
+		out.mismatchProp = "C12"
+	}
+	ask("world")
+	numbered := 0
+	for _, e := range w.events {
+		var line string
+		switch e.what {
+		case "get-done":
+			if e.digest16 == "" {
+				continue
+			}
+			line = fmt.Sprintf("get %s %s %s", b01(e.doNotCache), e.digest16, strings.TrimPrefix(e.name, "/"))
+			if e.doNotCache {
+				numbered++
+			}
+		case "get-failed":
+			if e.digest16 == "" {
+				continue
+			}
+			line = fmt.Sprintf("getfail %s %s", b01(e.doNotCache), e.digest16)
+			if e.doNotCache {
+				numbered++
+			}
+		case "close-start":
+			line = "done " + strings.TrimPrefix(e.name, "/")
+		default:
+			continue
+		}
+		if got := ask(line); got != "ok" {
+			fail(line, got)
+			return
+		}
+	}
+	if got := ask(fmt.Sprintf("end %d", numbered)); got != "ok" {
+		fail(fmt.Sprintf("end %d", numbered), got)
+	}
+}
